@@ -67,6 +67,9 @@ type c12state struct {
 	dirID       uint32
 	probeSvc    uint32
 	removedObjs map[uint32]bool
+	removedSvcs map[uint32]bool // services the hostile client asked the directory to unregister (documented removal)
+	listed      map[uint32]string
+	listedOK    bool
 	serviceGone bool
 	sent        int
 	focus       int
@@ -74,7 +77,7 @@ type c12state struct {
 }
 
 func (c12) Run(c *core.Case, env *core.Env) {
-	st := &c12state{removedObjs: map[uint32]bool{}, focus: c.P("focus", 0)}
+	st := &c12state{removedObjs: map[uint32]bool{}, removedSvcs: map[uint32]bool{}, focus: c.P("focus", 0)}
 	env.Set("st", st)
 	zzsim.SetNode("server")
 	srv, err := directory.NewServer(ServerAddr, bus.Dictionary(map[string]string{"u": "p"}))
@@ -191,8 +194,32 @@ func (c12) Run(c *core.Case, env *core.Env) {
 		env.Return(h, out, err)
 	}
 	h = env.Invoke(400, "probe-directory", "services()")
-	_, err = pcl.Call(nil, st.dirID, 1, 101, nil)
+	resp, err := pcl.Call(nil, st.dirID, 1, 101, nil)
 	env.Return(h, "", err)
+	if err == nil {
+		// which services does the directory still list?
+		func() {
+			defer func() { recover() }()
+			rd := &ref.Rd{B: resp}
+			n := rd.U32()
+			listed := map[uint32]string{}
+			for i := uint32(0); i < n; i++ {
+				name := rd.Str()
+				id := rd.U32()
+				rd.Str()
+				rd.U32()
+				for k := rd.U32(); k > 0; k-- {
+					rd.Str()
+				}
+				rd.Str()
+				rd.Str()
+				listed[id] = name
+			}
+			if rd.Left() == 0 && rd.Err == nil {
+				st.listed, st.listedOK = listed, true
+			}
+		}()
+	}
 }
 
 func le32(v uint32) []byte {
@@ -368,8 +395,14 @@ func c12frames(st *c12state, cat string, r *rand.Rand) [][]byte {
 				b.Str("uid")
 			}
 		case 103, 104, 109:
-			// never the probe service or the directory themselves: unregisterService is a documented removal
-			b.U32(pick32(0, 77, 0xffffffff, 3, 4))
+			// unregisterService of a live service is a documented removal:
+			// it may only remove the entry it names
+			x := pick32(0, 77, 0xffffffff, 3, 4, 0, 77)
+			if act == 103 && r.IntN(4) == 0 {
+				x = pick32(st.probeSvc, st.dirID)
+				st.removedSvcs[x] = true
+			}
+			b.U32(x)
 		case 100:
 			b.Str([]string{"Probe", "Nope", ""}[r.IntN(3)])
 		}
@@ -504,6 +537,20 @@ func (c12) Check(c *core.Case, env *core.Env, res zzsim.Result, v *core.Verdict)
 		}
 		if h.Kind == "probe-directory" && !h.OK {
 			bad("directory-refuses", "the directory no longer answers a fresh client: %s", h.Err)
+		}
+		if h.Kind == "probe-directory" && h.OK {
+			if !st.listedOK {
+				bad("directory-list-undecodable", "the directory's list of services cannot be decoded")
+			} else {
+				for _, id := range []uint32{st.dirID, st.probeSvc} {
+					if _, ok := st.listed[id]; !ok && !st.removedSvcs[id] {
+						bad("service-delisted", "service %d is no longer listed by the directory although nobody asked to unregister it (listed: %v, unregistered on request: %v)", id, st.listed, st.removedSvcs)
+					}
+					if st.removedSvcs[id] {
+						env.Probe("service-unregistered-by-the-hostile-client")
+					}
+				}
+			}
 		}
 	}
 	if st.raw != nil && zzsimTracing(env) {
